@@ -599,3 +599,52 @@ func collectNameAgreement(pk *packages.Package) (checked int, bad []nameMismatch
 	}
 	return
 }
+
+// enumSwitchPartition: how a switch over an enum groups the constants into clauses.
+type enumSwitchPartition struct {
+	Fn      string
+	Pos     token.Pos
+	TagType *types.Named
+	Canon   string
+}
+
+func collectEnumPartitions(pk *packages.Package) []*enumSwitchPartition {
+	var out []*enumSwitchPartition
+	for _, f := range pk.Syntax {
+		for _, d := range f.Decls {
+			fd, ok := d.(*ast.FuncDecl)
+			if !ok || fd.Body == nil {
+				continue
+			}
+			ast.Inspect(fd.Body, func(n ast.Node) bool {
+				sw, ok := n.(*ast.SwitchStmt)
+				if !ok || sw.Tag == nil {
+					return true
+				}
+				tt := namedPtr(pk.TypesInfo.TypeOf(sw.Tag))
+				if tt == nil {
+					return true
+				}
+				var groups []string
+				for _, cl := range sw.Body.List {
+					cc := cl.(*ast.CaseClause)
+					if cc.List == nil {
+						continue
+					}
+					var names []string
+					for _, e := range cc.List {
+						if tv := pk.TypesInfo.Types[e]; tv.Value != nil {
+							names = append(names, tv.Value.ExactString())
+						}
+					}
+					sort.Strings(names)
+					groups = append(groups, "{"+strings.Join(names, ",")+"}")
+				}
+				sort.Strings(groups)
+				out = append(out, &enumSwitchPartition{Fn: fd.Name.Name, Pos: sw.Pos(), TagType: tt, Canon: strings.Join(groups, "")})
+				return true
+			})
+		}
+	}
+	return out
+}
